@@ -501,7 +501,11 @@ struct SeeModel {
     std::set<Obs> must, maybe;
     std::set<std::pair<Mac, Mac>> keys; // (eth src, real src) pairs already pending
     bool relaxed = false;               // more than 300 pending in this period: conservation not demanded (C19 may cap)
-    void clear() { must.clear(); maybe.clear(); keys.clear(); relaxed = false; }
+    // Even while relaxed: every descriptor a QueryResp delivered made room for one more observation, whatever the bound is.  An
+    // observation received while such room exists must be recorded, i.e. reported before the drain ends.
+    uint64_t room = 0;
+    std::set<Obs> strict;
+    void clear() { must.clear(); maybe.clear(); keys.clear(); relaxed = false; room = 0; strict.clear(); }
 };
 struct MonC07 : Monitor {
     std::map<int, SeeModel> sm;
@@ -518,16 +522,16 @@ struct MonC07 : Monitor {
             std::pair<Mac, Mac> key(o.es, o.rs);
             if (e_own && r_own && !d.internal_fault && !(gf & G_MAC)) {
                 if (s.keys.count(key)) { if (!s.must.count(o) && !s.maybe.count(o)) s.maybe.insert(o); w.note("c07_duplicate_observation"); }
-                else { s.must.insert(o); s.keys.insert(key); }
+                else { s.must.insert(o); s.keys.insert(key); if (s.relaxed && s.room > 0) { s.room--; s.strict.insert(o); w.note("c07_observation_into_freed_room"); } }
                 if (s.must.size() > 300) s.relaxed = true;
             } else if (!e_own && !r_own && !(gf & G_MAC)) { w.note("c07_foreign_probe"); }
             else { s.maybe.insert(o); }
         } else if (tos == 0 && op == W_RESET) { s.clear(); w.note("c07_reset"); }
-        else if (tos == 1 && op == W_RESET) { for (auto &o : s.must) s.maybe.insert(o); s.must.clear(); }
+        else if (tos == 1 && op == W_RESET) { for (auto &o : s.must) s.maybe.insert(o); s.must.clear(); s.strict.clear(); s.room = 0; }
         else if (tos == 0 && op == W_QUERY) {
             std::vector<const TxRec *> qr;
             for (auto &tx : d.txs) if (tx.channel == 0 && tx.data.size() >= 34 && tx.data[OFF_OP] == W_QUERYRESP) qr.push_back(&tx);
-            if (d.internal_fault) { for (auto &o : s.must) s.maybe.insert(o); s.must.clear(); s.keys.clear(); if (qr.empty()) return; }
+            if (d.internal_fault) { for (auto &o : s.must) s.maybe.insert(o); s.must.clear(); s.keys.clear(); s.strict.clear(); s.room = 0; if (qr.empty()) return; }
             if (qr.empty()) { w.violate("C07", "query-unanswered", "Query got no QueryResp"); return; }
             const Bytes &f = qr[0]->data;
             Mac qs = mac_at(d.buf + OFF_RSRC), qe = mac_at(d.buf + OFF_ESRC);
@@ -538,13 +542,18 @@ struct MonC07 : Monitor {
             uint16_t cf = be16(&f[32]);
             size_t cnt = cf & 0x3FFF;
             bool more = (cf & 0x8000) != 0;
-            if (f.size() < 34 + 20 * cnt) return; // C02's business
+            if (f.size() < 34 + 20 * cnt) { // malformed (C02's business); for C07 only what is really carried counts as delivered
+                size_t carried = (f.size() - 34) / 20;
+                w.note("c07_queryresp_declares_more_than_carried");
+                cnt = carried;
+            }
             std::set<Obs> listed;
             size_t pend_before = s.must.size();
             for (size_t i = 0; i < cnt; i++) {
                 const uint8_t *p = &f[34 + 20 * i];
                 Obs o{mac_at(p + 2), mac_at(p + 8), mac_at(p + 14)};
                 if (!listed.insert(o).second) { w.violate("C07", "observation-twice", "QueryResp lists " + o.rs.str() + "/" + o.es.str() + " twice"); return; }
+                s.strict.erase(o);
                 if (s.must.count(o)) s.must.erase(o);
                 else if (s.maybe.count(o)) s.maybe.erase(o);
                 else { w.violate("C07", "observation-invented", "QueryResp lists an observation (real source " + o.rs.str() + ", Ethernet source " + o.es.str() + ") that was never received or was already reported/reset"); return; }
@@ -556,8 +565,17 @@ struct MonC07 : Monitor {
                 return;
             }
             if (more) w.note("c07_more_flag_seen");
+            if (more && cnt == 0 && !s.must.empty() && d.mtu >= 54 && !(gf & G_MTU)) {
+                w.violate("C07", "observations-dropped", fmt("QueryResp announces more descriptors but carries none while %zu observation(s) are pending: a drain can never complete", s.must.size()));
+                return;
+            }
+            if (s.relaxed) s.room += cnt;
+            if (!more && !s.strict.empty()) {
+                w.violate("C07", "observations-dropped", fmt("%zu observation(s) received while the record had room again (a QueryResp had just delivered descriptors) were never reported before the drain ended", s.strict.size()));
+                return;
+            }
             if (!more) { // whatever an implementation did not deliver and did not announce is gone
-                s.maybe.clear(); s.keys.clear(); s.relaxed = false; s.must.clear();
+                s.maybe.clear(); s.keys.clear(); s.relaxed = false; s.must.clear(); s.room = 0; s.strict.clear();
             } else {
                 s.keys.clear();
                 for (auto &o : s.must) s.keys.insert({o.es, o.rs});
@@ -686,11 +704,15 @@ struct MonC10 : Monitor {
                 const Bytes &f = tx.data;
                 uint16_t cf = be16(&f[32]);
                 size_t cnt = cf & 0x3FFF;
-                if (f.size() < 34 + 20 * cnt) return;
+                if (f.size() < 34 + 20 * cnt) cnt = (f.size() - 34) / 20; // only what the frame really carries has been reported
                 for (size_t i = 0; i < cnt; i++) {
                     const uint8_t *p = &f[34 + 20 * i];
                     Obs o{mac_at(p + 2), mac_at(p + 8), mac_at(p + 14)};
                     if (expect[d.node].erase(o)) w.note("c10_probe_reported_by_peer");
+                }
+                if ((cf & 0x8000) && cnt == 0 && !expect[d.node].empty() && d.mtu >= 54) {
+                    w.violate("C10", "peer-probe-not-reported", "QueryResp announces more descriptors but carries none: the frames the peer emitted are withheld for ever");
+                    expect[d.node].clear();
                 }
                 if (!(cf & 0x8000)) {
                     if (!expect[d.node].empty() && !relaxed[d.node]) {
@@ -796,13 +818,39 @@ struct MonC12 : Monitor {
         }
         check(w, d.node, d.txs, d.after);
     }
+    // API level: the sessions the table must be holding, kept by the monitor itself (key -> complete flag, second of last refresh)
+    struct ASess { bool complete; uint64_t last_s; };
+    std::map<std::pair<Mac, uint16_t>, ASess> am;
+    bool a_armed = false; uint64_t a_deadline = 0;
     void on_api(World &w, int, const Op &op, const glue_view &, const glue_view &, int64_t) override {
-        if (op.kind == OP_A_INACT) { traffic_s[0] = w.now / 1000; have_traffic[0] = true; }
-        if (op.kind == OP_A_TADD) added_s[0] = w.now / 1000;
-        if (op.kind == OP_A_REINIT) { have_traffic[0] = false; added_s.erase(0); last.erase(0); /* a restarted daemon has no memory of its last Hello either */ }
+        uint64_t now_s = w.now / 1000;
+        auto key = std::make_pair(api_key_mac((int)op.a[0]), api_key_gen((int)op.a[0]));
+        if (op.kind == OP_A_INACT) { traffic_s[0] = now_s; have_traffic[0] = true; a_armed = true; a_deadline = now_s + 30; }
+        if (op.kind == OP_A_TADD) {
+            added_s[0] = now_s;
+            auto it = am.find(key);
+            if (it != am.end()) it->second.last_s = now_s; else if (am.size() < 16) am[key] = ASess{false, now_s};
+        }
+        if (op.kind == OP_A_TREM) am.erase(key);
+        if (op.kind == OP_A_TCLR) am.clear();
+        if (op.kind == OP_A_TCOMPL) { auto it = am.find(key); if (it != am.end()) it->second.complete = op.a[1] != 0; }
+        if (op.kind == OP_A_REINIT) { have_traffic[0] = false; added_s.erase(0); last.erase(0); am.clear(); a_armed = false; /* a restarted daemon has no memory of its last Hello either */ }
     }
     void on_tick(World &w, TickRec &t) override {
         if (!w.plan.api_world && ft.count(t.node)) ft[t.node].tick(t.t / 1000);
+        if (w.plan.api_world && t.node == 0) { // what the tick itself must do to the table before it may send anything
+            uint64_t now_s = t.t / 1000;
+            if (a_armed && now_s >= a_deadline) { a_armed = false; am.clear(); }
+            for (auto it = am.begin(); it != am.end();) { if (now_s > it->second.last_s + 60) it = am.erase(it); else ++it; }
+            bool hello = false;
+            for (auto &tx : t.txs) if (tx.channel == 1) hello = true;
+            if (hello) {
+                size_t inc = 0;
+                for (auto &kv : am) if (!kv.second.complete) inc++;
+                if (am.empty()) w.violate("C12", "hello-with-empty-table", fmt("periodic Hello at t=%llu although every session has been removed, has expired (60 s) or was dropped by the inactivity deadline (model of the table)", (unsigned long long)t.t));
+                else if (inc == 0) w.violate("C12", "hello-all-complete", fmt("periodic Hello at t=%llu although every session is complete (model of the table)", (unsigned long long)t.t));
+            }
+        }
         check(w, t.node, t.txs, t.after);
         // API level: once the deadline has fired it is disarmed until the next mapping_reset_inactive_timeout
         if (w.plan.api_world && have_traffic[t.node] && t.t / 1000 >= traffic_s[t.node] + 31) have_traffic[t.node] = false;
